@@ -82,12 +82,12 @@ Theorem C54_set_ignored_when_shut : forall h svc st, hshut h = true -> hstep h (
 Proof. exact health_set_ignored_when_shut. Qed.
 Print Assumptions C54_set_ignored_when_shut.
 
-(* bridge, partial: op lists without Watch streams.  Full statement:
-     forall ops, wf [] ops = true -> exists obs, run [] ops = Some obs /\ holds_b [] ops obs = true *)
-Theorem C54_holds_on_every_model_trace_partial : forall ops, forallb nowatch ops = true ->
-  exists obs, run [] ops = Some obs /\ holds_b [] ops obs = true.
-Proof. exact model_trace_holds_partial. Qed.
-Print Assumptions C54_holds_on_every_model_trace_partial.
+(* bridge: the monitor that is evaluated on implementation traces accepts every model trace, for
+   every op list the driver can produce (Watch streams, slow senders, cancellation included) *)
+Theorem C54_holds_on_every_model_trace : forall cfg ops, wf cfg ops = true ->
+  exists obs, run cfg ops = Some obs /\ holds_b cfg ops obs = true.
+Proof. exact model_trace_holds. Qed.
+Print Assumptions C54_holds_on_every_model_trace.
 
 Example C54_witness :
   let ops := [[5; 1; 1; 0]; [5; 2; 0; 1]; [1; 1; 1]; [1; 0; 2]; [1; 0; 1]; [6; 2]; [2]; [4; 1]; [1; 1; 1]; [3]; [6; 2]; [6; 2]] in
